@@ -93,8 +93,6 @@ def judge(line, m, i):
         why = cbor.check_canonical(b)
         if why:
             return "emitted bytes are not CTAP2 canonical CBOR: " + why
-    if core.norm(m) != core.norm(i):
-        return "model of the specification and implementation disagree"
     parts = line.split("\t")
     if parts[1] == "authdata":
         if i and i.startswith("ok "):
